@@ -120,7 +120,7 @@ func StartMockAPISecret(ae bool, fixedSecret string) *Env {
 	RegisterString(u)
 	RegisterString(cfg.Target)
 	return &Env{Mode: "mock", Secret: secret, Addr: "127.0.0.1:" + strconv.Itoa(port), DS: ds, CS: cs, clock: &mockClock,
-		Cfg: Config{AE: ae, Host: u, Target: cfg.Target, Audience: cfg.Target, TTL: 30}}
+		Cfg: Config{AE: ae, Host: u, Target: cfg.Target, Audience: cfg.Target, TTL: 30, Secret: secret}}
 }
 
 // StartRealRelay starts the whole relay (one per process) on the wall clock.
@@ -130,7 +130,7 @@ func StartRealRelay(ae bool) *Env {
 	RegisterString(r.Target)
 	u, _ := url.Parse(r.AccessURL)
 	return &Env{Mode: "real", Secret: r.Secret, Addr: u.Host, RelayWs: r.Target,
-		Cfg: Config{AE: ae, Host: r.AccessURL, Target: r.Target, Audience: r.Target, TTL: 30}}
+		Cfg: Config{AE: ae, Host: r.AccessURL, Target: r.Target, Audience: r.Target, TTL: 30, Secret: r.Secret}}
 }
 
 func waitPort(port int) {
@@ -395,9 +395,11 @@ func (r *Runner) Run(c *Case) {
 		case "leave":
 			o.Conn = r.connNo[o.UA]
 			out = r.doLeave(o.UA)
+		case "timers": // the model is told that every expiry timer that is due has fired; what the relay really did is
+			// read from the listing afterwards (and by the "serverclose" observations)
+			out = Out{K: "unit"}
 		case "serverclose":
-			// the relay is expected to have ended this connection by itself: if it is no longer listed the model is
-			// told that the connection ended (OLeave); if it still is, nothing is told and the harness keeps the fact
+			// an observation for the oracle only: is the connection still listed, has the relay closed its socket?
 			gone := false
 			for k := 0; k < 30 && !gone; k++ {
 				rep, ok := r.listed(o.UA)
@@ -408,14 +410,11 @@ func (r *Runner) Run(c *Case) {
 			}
 			if !gone {
 				r.Outlived = append(r.Outlived, o.UA)
-				r.postOp(t)
-				continue
-			}
-			if r.SocketClosed != nil && !r.SocketClosed(o.UA) {
+			} else if r.SocketClosed != nil && !r.SocketClosed(o.UA) {
 				r.OpenSocket = append(r.OpenSocket, o.UA)
 			}
-			o.K, o.Conn = "leave", r.connNo[o.UA]
-			out = Out{K: "unit"}
+			r.postOp(t)
+			continue
 		}
 		r.postOp(t)
 		if r.AfterOp != nil {
